@@ -114,7 +114,8 @@ class GenericCallAdapter(Adapter):
             kw_arg_node = {kw.arg: kw.value for kw in node.keywords if kw.arg}.get
 
             def pos_arg_node(pos):
-                return node.args[pos]
+                # the source can omit arguments which have a default value
+                return node.args[pos] if pos < len(node.args) else None
 
         else:
 
@@ -188,9 +189,12 @@ class GenericCallAdapter(Adapter):
                 )
 
         if len(old_node.args) < len(new_args):
+            # the source can omit arguments which have a default value
+            insert_flag = "update" if old_value == new_value else "fix"
+
             for insert_pos, value in list(enumerate(new_args))[len(old_node.args) :]:
                 yield CallArg(
-                    flag="fix",
+                    flag=insert_flag,
                     file=self.context.file._source,
                     node=old_node,
                     arg_pos=insert_pos,
@@ -198,6 +202,7 @@ class GenericCallAdapter(Adapter):
                     new_code=self.context.file._value_to_code(value.value),
                     new_value=value.value,
                 )
+                result_args.append(value.value)
 
         # keyword arguments
         result_kwargs = {}
@@ -492,7 +497,9 @@ class DefaultDictAdapter(GenericCallAdapter):
         )
 
     def argument(self, value, pos_or_name):
-        assert isinstance(pos_or_name, int)
+        if isinstance(pos_or_name, str):
+            # an entry which is written as keyword argument
+            return dict.get(value, pos_or_name)
         if pos_or_name == 0:
             return value.default_factory
         elif pos_or_name == 1:
